@@ -1010,6 +1010,11 @@ class LLMRails:
         """
         t0 = time.time()
 
+        # The raw request and the generation options only exist for `generate_async`,
+        # the ones of a previous call must not be used
+        raw_llm_request.set(None)
+        generation_options_var.set(None)
+
         # Initialize the LLM stats
         llm_stats = LLMStats()
         llm_stats_var.set(llm_stats)
@@ -1066,6 +1071,12 @@ class LLMRails:
               state.
         """
         t0 = time.time()
+
+        # The raw request and the generation options only exist for `generate_async`,
+        # the ones of a previous call must not be used
+        raw_llm_request.set(None)
+        generation_options_var.set(None)
+
         llm_stats = LLMStats()
         llm_stats_var.set(llm_stats)
 
